@@ -10,6 +10,8 @@ CONSTANTS
   BackupSingleStep = TRUE
   StreamEndDetected = TRUE
   AbortAfterPartial = TRUE
+  EndMarkerOnlyOnSuccess = TRUE
+  CopyErrorReturned = TRUE
 CONSTRAINT HW
 POSTCONDITION Accepted
 CHECK_DEADLOCK FALSE
